@@ -94,6 +94,7 @@ func runC10(c *eng.Ctx) {
 	lookupMissIsFinalOnlyOnCurrentSnapshot(c)
 	cachedBucketIsNotRecycled(c)
 	forwardEntryIsFresh(c)
+	c.Rule("ORDER", midT+".Flush{postings<series-dictionary}", func() { indexFlushSeriesLast(c) })
 
 	// ---- 1. walkers exhaustive and in agreement -----------------------------------------------------------------------------
 	c.Rule("EXHAUSTIVE", "query/operator{condition walkers}", func() {
@@ -270,17 +271,19 @@ func runC10(c *eng.Ctx) {
 			typ       string // struct whose mutable/immutable fields must be read (deep)
 		}
 		kvs := kvsT
+		// a persisted bucket comes from a reader over the snapshot or out of the bucket cache (same content: the cache is purged with every snapshot change)
+		bucketRead := eng.Any(invokeOn("", "GetBucket"), invokeOnGeneric(".bucketCache", "Get"))
 		reads := []rd{
 			{"index.invertedIndex.getSeriesIDs", eng.CallTo("index.invertedIndex.findSeriesIDsByKeyFromMem"), "findSeriesIDsByKeyFromMem", invokeOn("", "Load"), "snapshot.Load", "index.invertedIndex"},
 			{"index.invertedIndex.findSeriesIDsByKeys", eng.CallTo("index.invertedIndex.findSeriesIDsByKeyFromMem"), "findSeriesIDsByKeyFromMem", invokeOn("", "Load"), "snapshot.Load", "index.invertedIndex"},
 			{"index.forwardIndex.findSeriesIDsForTag", eng.CallTo("index.forwardIndex.loadSeriesIDsInMem"), "loadSeriesIDsInMem", invokeOn("", "FindReaders"), "snapshot.FindReaders", "index.forwardIndex"},
 			{"index.forwardIndex.GetGroupingContext", eng.CallTo("index.forwardIndex.loadSeriesIDsInMem"), "loadSeriesIDsInMem", invokeOn("", "FindReaders"), "snapshot.FindReaders", "index.forwardIndex"},
-			{kvs + ".GetValues", eng.CallTo(kvs + ".getValuesFromMem"), "getValuesFromMem", invokeOn("", "GetBucket"), "reader.GetBucket", kvs},
+			{kvs + ".GetValues", eng.CallTo(kvs + ".getValuesFromMem"), "getValuesFromMem", bucketRead, "reader.GetBucket / bucketCache.Get", kvs},
 			{kvs + ".findValue", eng.CallTo(kvs + ".GetValue"), "GetValue -> getOrCreateValue (memory+persisted lookup, C09)", eng.CallTo(kvs + ".GetValue"), "GetValue", ""},
-			{kvs + ".FindValuesByRegexp", eng.CallTo(kvs + ".findValuesByRegexp"), "findValuesByRegexp(mem)", invokeOn("", "GetBucket"), "reader.GetBucket", kvs},
-			{kvs + ".findValuesByLike", eng.CallTo(kvs + ".findValuesByLikeFormMem"), "findValuesByLikeFormMem", invokeOn("", "GetBucket"), "reader.GetBucket", kvs},
-			{kvs + ".CollectKVs", nil, "direct reads", invokeOn("", "GetBucket"), "reader.GetBucket", kvs},
-			{kvs + ".Suggest", nil, "direct reads", invokeOn("", "GetBucket"), "reader.GetBucket", kvs},
+			{kvs + ".FindValuesByRegexp", eng.CallTo(kvs + ".findValuesByRegexp"), "findValuesByRegexp(mem)", bucketRead, "reader.GetBucket / bucketCache.Get", kvs},
+			{kvs + ".findValuesByLike", eng.CallTo(kvs + ".findValuesByLikeFormMem"), "findValuesByLikeFormMem", bucketRead, "reader.GetBucket / bucketCache.Get", kvs},
+			{kvs + ".CollectKVs", nil, "direct reads", bucketRead, "reader.GetBucket / bucketCache.Get", kvs},
+			{kvs + ".Suggest", nil, "direct reads", bucketRead, "reader.GetBucket / bucketCache.Get", kvs},
 			{mssT + ".GetSchema", eng.CallTo(mssT + ".getSchemaFromMem"), "getSchemaFromMem", eng.CallTo(mssT + ".getSchemaFromKV"), "getSchemaFromKV", mssT},
 		}
 		for _, r := range reads {
@@ -367,79 +370,12 @@ func runC10(c *eng.Ctx) {
 	c.Rule("PASS", "index.forwardIndex.GetGroupingContext{intersection per group-by tag key}", func() { groupingIntersectsPerTagKey(c) })
 	// the condition walker combines the sets of its atoms IN PLACE (left.And(right) / left.Or(right)); every atom therefore gets a set of
 	// its own from the index, never one that is kept and handed out again
-	c.Rule("PROV", "query/operator.seriesFiltering.getSeriesIDsByExpr{every atom gets its own series set}", func() {
-		f := p.Func("query/operator.seriesFiltering.getSeriesIDsByExpr")
-		inline := f == nil
-		if inline {
-			f = c.Fn("query/operator.seriesFiltering.findSeriesIDsByExpr") // the lookup written in place in the walker
-		}
-		load := c.One(f, invokeOn(".indexDB", "GetSeriesIDsByTagValueIDs"), "indexDB.GetSeriesIDsByTagValueIDs(key, values)")
-		n := 0
-		for i, r := range eng.SuccessReturns(f) {
-			v := eng.RetVal(r, 1)
-			if eng.IsNilConst(v) {
-				continue
-			}
-			if inline && !eng.DependsOn(v, func(x ssa.Value) bool { return x == load.Instr.(ssa.Value) }) {
-				// a return of the walker itself (a combination, or an empty set): it must not come out of a keep-and-reuse store either
-				kept := eng.DependsOn(v, func(x ssa.Value) bool { _, isLookup := x.(*ssa.Lookup); return isLookup })
-				c.Check(!kept, fmt.Sprintf("set-not-from-a-store[%d]", i), r, f, "no series set is taken from a map kept by the operator", "returns "+p.Desc(v))
-				continue
-			}
-			n++
-			fresh := eng.OnlyFromCall(v, load.Instr.(ssa.Value))
-			c.Check(fresh, fmt.Sprintf("set-from-this-lookup[%d]", i), r, f,
-				"the series set returned for an atom is the result of THIS call's index lookup: the caller intersects / unites into it in place, a set that is kept and returned again would carry the previous combination",
-				"returns "+p.Desc(v))
-		}
-		c.Check(n >= 1, "returns-a-set", nil, f, "the atom lookup returns a series set", "")
-		w := c.Fn("query/operator.seriesFiltering.findSeriesIDsByExpr")
-		c.Check(len(p.Sites(w, eng.AnyCallTo("github.com/lindb/roaring.Bitmap.And", "github.com/lindb/roaring.Bitmap.Or"))) >= 2, "combined-in-place", nil, w, "the walker combines the atoms' sets in place", "")
-	})
+	everyAtomGetsItsOwnSet(c)
 
 	c.Rule("SYMMETRY", "index{regex lookup: persisted candidates = all keys unless the expression is anchored}", func() { regexCandidates(c) })
 	c.Rule("GUARD", "index.indexKVStore.FindValuesByLike{no pattern slices out of range}", func() { likePatternSlices(c) })
 
-	c.Rule("OWNER", "index.indexKVStore{a bucket taken from the cache is not released by its reader}", func() {
-		n := 0
-		for _, fn := range p.AllFuncs {
-			if !strings.HasPrefix(p.FuncKey(fn), "index.indexKVStore.") {
-				continue
-			}
-			for _, b := range fn.Blocks {
-				for _, in := range b.Instrs {
-					var cc *ssa.CallCommon
-					switch x := in.(type) {
-					case *ssa.Call:
-						cc = x.Common()
-					case *ssa.Defer:
-						cc = x.Common()
-					}
-					if cc == nil {
-						continue
-					}
-					var recv ssa.Value
-					if cc.IsInvoke() && cc.Method.Name() == "Release" {
-						recv = cc.Value
-					} else if g := cc.StaticCallee(); g != nil && baseName(g.Name()) == "Release" && len(cc.Args) > 0 {
-						recv = cc.Args[0]
-					}
-					if recv == nil || !strings.Contains(recv.Type().String(), "TrieBucket") {
-						continue
-					}
-					n++
-					cached := eng.DependsOn(recv, func(x ssa.Value) bool {
-						cl, ok := x.(*ssa.Call)
-						return ok && cl.Common().IsInvoke() == false && cl.Common().StaticCallee() != nil && baseName(cl.Common().StaticCallee().Name()) == "Get" && eng.DependsOnField(eng.CallRecv(cl), "index.indexKVStore.bucketCache")
-					})
-					c.Check(!cached, fmt.Sprintf("release@%s[%d]", p.FuncKey(fn), n), in, fn,
-						"a reader releases only a bucket it loaded itself (reader.GetBucket): a bucket obtained from bucketCache stays owned by the cache — Release returns its tries to the pool while the cache (and lock-free lookups through it) still use them, and the next bucket load recycles them",
-						"the released bucket can come from bucketCache.Get")
-				}
-			}
-		}
-		c.Check(n >= 3, "release-sites-found", nil, nil, "the readers release the buckets they load", fmt.Sprintf("%d sites", n))
-	})
+	cachedBucketNotReleasedByReader(c)
 
 	c.Rule("UNION", "index.forwardIndex.loadSeriesIDsInMem{mutable and immutable store both consulted}", func() {
 		f := c.Fn("index.forwardIndex.loadSeriesIDsInMem")
@@ -998,5 +934,91 @@ func kvStoreFlushSnapshotThenPurge(c *eng.Ctx) {
 		c.Check(ok, "purge-with-snapshot-swap", purge.Instr, f, "the bucket cache is purged in the same write hold that installs the new snapshot (a cached bucket always belongs to the current snapshot)", why)
 		owner(c, "call of bucketCache.Purge", invokeOnGeneric(".bucketCache", "Purge"), []string{kvsT + ".Flush"}, 1)
 		c.Observe("getOrCreateValue may add a bucket read from the previous snapshot to the cache right after Flush purged it (lookup started before the swap) — a stale-cache window noticed, not armed")
+	})
+}
+
+// everyAtomGetsItsOwnSet (shared by C10 and C11).
+func everyAtomGetsItsOwnSet(c *eng.Ctx) {
+	p := c.P
+	c.Rule("PROV", "query/operator.seriesFiltering.getSeriesIDsByExpr{every atom gets its own series set}", func() {
+		f := p.Func("query/operator.seriesFiltering.getSeriesIDsByExpr")
+		inline := f == nil
+		if inline {
+			f = c.Fn("query/operator.seriesFiltering.findSeriesIDsByExpr") // the lookup written in place in the walker
+		}
+		load := c.One(f, invokeOn(".indexDB", "GetSeriesIDsByTagValueIDs"), "indexDB.GetSeriesIDsByTagValueIDs(key, values)")
+		n := 0
+		for i, r := range eng.SuccessReturns(f) {
+			v := eng.RetVal(r, 1)
+			if eng.IsNilConst(v) {
+				continue
+			}
+			if inline && !eng.DependsOn(v, func(x ssa.Value) bool { return x == load.Instr.(ssa.Value) }) {
+				// a return of the walker itself (a combination, or an empty set): it must not come out of a keep-and-reuse store either
+				kept := eng.DependsOn(v, func(x ssa.Value) bool { _, isLookup := x.(*ssa.Lookup); return isLookup })
+				c.Check(!kept, fmt.Sprintf("set-not-from-a-store[%d]", i), r, f, "no series set is taken from a map kept by the operator", "returns "+p.Desc(v))
+				continue
+			}
+			n++
+			fresh := eng.OnlyFromCall(v, load.Instr.(ssa.Value))
+			c.Check(fresh, fmt.Sprintf("set-from-this-lookup[%d]", i), r, f,
+				"the series set returned for an atom is the result of THIS call's index lookup: the caller intersects / unites into it in place, a set that is kept and returned again would carry the previous combination",
+				"returns "+p.Desc(v))
+		}
+		c.Check(n >= 1, "returns-a-set", nil, f, "the atom lookup returns a series set", "")
+		w := c.Fn("query/operator.seriesFiltering.findSeriesIDsByExpr")
+		c.Check(len(p.Sites(w, eng.AnyCallTo("github.com/lindb/roaring.Bitmap.And", "github.com/lindb/roaring.Bitmap.Or"))) >= 2, "combined-in-place", nil, w, "the walker combines the atoms' sets in place", "")
+	})
+}
+
+// cachedBucketNotReleasedByReader (shared by C10 and C09).
+func cachedBucketNotReleasedByReader(c *eng.Ctx) {
+	p := c.P
+	c.Rule("OWNER", "index.indexKVStore{a bucket taken from the cache is not released by its reader}", func() {
+		n := 0
+		for _, fn := range p.AllFuncs {
+			if !strings.HasPrefix(p.FuncKey(fn), "index.indexKVStore.") {
+				continue
+			}
+			for _, b := range fn.Blocks {
+				for _, in := range b.Instrs {
+					var cc *ssa.CallCommon
+					switch x := in.(type) {
+					case *ssa.Call:
+						cc = x.Common()
+					case *ssa.Defer:
+						cc = x.Common()
+					}
+					if cc == nil {
+						continue
+					}
+					var recv ssa.Value
+					if cc.IsInvoke() && cc.Method.Name() == "Release" {
+						recv = cc.Value
+					} else if g := cc.StaticCallee(); g != nil && baseName(g.Name()) == "Release" && len(cc.Args) > 0 {
+						recv = cc.Args[0]
+					}
+					if recv == nil || !strings.Contains(recv.Type().String(), "TrieBucket") {
+						continue
+					}
+					n++
+					isCacheGet := func(x ssa.Value) bool {
+						cl, ok := x.(*ssa.Call)
+						return ok && cl.Common().IsInvoke() == false && cl.Common().StaticCallee() != nil && baseName(cl.Common().StaticCallee().Name()) == "Get" && eng.DependsOnField(eng.CallRecv(cl), "index.indexKVStore.bucketCache")
+					}
+					cached := eng.DependsOn(recv, isCacheGet)
+					// ... or handed out by a helper of the store that may answer from the cache
+					for _, src := range leafSources(recv) {
+						if eng.DependsOn(src, isCacheGet) {
+							cached = true
+						}
+					}
+					c.Check(!cached, fmt.Sprintf("release@%s[%d]", p.FuncKey(fn), n), in, fn,
+						"a reader releases only a bucket it loaded itself (reader.GetBucket): a bucket obtained from bucketCache stays owned by the cache — Release returns its tries to the pool while the cache (and lock-free lookups through it) still use them, and the next bucket load recycles them",
+						"the released bucket can come from bucketCache.Get")
+				}
+			}
+		}
+		c.Check(n >= 3, "release-sites-found", nil, nil, "the readers release the buckets they load", fmt.Sprintf("%d sites", n))
 	})
 }
